@@ -8,7 +8,22 @@ props = [json.loads(l) for l in (HERE / "properties.jsonl").read_text().splitlin
 
 TECH = "contract-based deductive verification: VCs generated from the real function ASTs against sidecar contracts, discharged by z3/cvc5"
 
+STD_NOTE = ("Trusted: the Python semantics assumptions PS1-PS9 and, where a clause says so, E1/E2 (DESIGN section 3); assumed contracts on "
+            "dependencies X1-X15 (DESIGN section 7) as listed per run in the evidence file; pyvc itself (VC generator) and z3/cvc5. "
+            "Functions not under contract are listed in DESIGN section 12.")
+
 CLAIMED = {
+    "C05": dict(text="Category algebra as postconditions of the real value classes: MinMaxValue._get_changes (fix iff bound violated, trim iff slack, update only for equal value, "
+                     "writes the recorded extreme), the aggregation invariants of _generic_cmp / __contains__ (preserved by every operation, hence for every observation sequence), "
+                     "UndecidedValue._get_changes (updates keep the value).", note=STD_NOTE, ref="6 (C05), 12"),
+    "C06": dict(text="Return-value clauses of _return, EqValue.__eq__, MinMaxValue._generic_cmp, CollectionValue.__contains__ and the UndecidedValue dispatchers (without flags the result "
+                     "object of the plain comparison is returned), plus the complete method-resolution table (every other operator raises TypeError).", note=STD_NOTE, ref="6 (C06), 12"),
+    "C07": dict(text="Counter clauses of the four operations and _return in every flag mode (missing / failing comparisons are counted, holding ones are not), proved for all values and flag sets.",
+                note=STD_NOTE, ref="6 (C07), 12"),
+    "C14": dict(text="Frame conditions (nothing outside self._new_value/_changes and the two counters is assigned), commit-once and aggregation invariants of the value classes.", note=STD_NOTE, ref="6 (C14), 12"),
+    "C17": dict(text="clone() returns deepcopy(obj) and raises UsageError iff the copy is unequal; every store of an observed value in the value classes is such a copy.", note=STD_NOTE, ref="6 (C17), 12"),
+    "C18": dict(text="All safety obligations (index in range, attribute defined, next() not exhausted, asserts, no undeclared exception) and termination measures of the functions under contract on the "
+                     "collect/apply path; emitted replacement ranges of generic_sequence_update are well-formed, ordered and disjoint.", note=STD_NOTE, ref="6 (C18), 12"),
     "C11": dict(
         text="Proof obligations over the real alignment kernels (align, nw_align, add_x): script validity, every 'm' pairs equal elements, "
              "equal common prefix/suffix kept, consumption counts; all loops by inductive invariants (unbounded), termination by decreasing measures.",
